@@ -1485,7 +1485,7 @@ Section Refine.
     exists g' n' t,
       run_op' (g, n) rst (OPush d c) = ((g', n'), RSUnsupported, t, ROk) /\
       minv g' /\
-      index_state g' tag (Some (H (gen_index upd), upd)) /\
+      index_state g' tag (Some (H (gen_index upd), upd)) /\ NoDup (map fst (g_tags g')) /\
       (d_dg d <> H (gen_index upd) -> lookup (d_dg d) (g_mans g') = Some (d_mt d, c)) /\
       exists n'' t', run_op' (g', n') RSUnsupported (OPreds sj)
                      = ((g', n''), RSUnsupported, t', RDescs (clean_refs [] upd)).
@@ -1513,7 +1513,7 @@ Section Refine.
     assert (Nn : is_nil upd = false) by (unfold upd; destruct (clean_refs [] l); reflexivity).
     rewrite Nn in Ist. cbn [andb] in Ist.
     destruct (tag_schema_read g' n' sj _ Hi' Vs ER Vt Hp Ist Hju) as (n'' & t' & R).
-    exists g', n', (t1 ++ t2). split; [|split; [|split; [exact Ist|split]]].
+    exists g', n', (t1 ++ t2). split; [|split; [|split; [exact Ist|split; [exact Hu'|split]]]].
     - cbn [run_op]. rewrite Him. unfold man_push. rewrite Hix.
       assert (Ns : rs_supported rst = false) by (destruct rst; cbn; congruence).
       rewrite Ns. cbn [negb andb].
@@ -1556,6 +1556,8 @@ Section Refine.
     exists g' n' t,
       run_op' (g, n) rst (ODelete d) = ((g', n'), RSUnsupported, t, ROk) /\
       minv g' /\ lookup (d_dg d) (g_mans g') = None /\
+      index_state g' tag (if is_nil upd && negb skip_gc then None else Some (H (gen_index upd), upd)) /\
+      NoDup (map fst (g_tags g')) /\
       exists n'' t', run_op' (g', n') RSUnsupported (OPreds sj)
                      = ((g', n''), RSUnsupported, t', RDescs (clean_refs [] upd)).
   Proof.
@@ -1590,7 +1592,8 @@ Section Refine.
     assert (Hjp : json_ok_st (if is_nil upd && negb skip_gc then None else Some (H (gen_index upd), upd)))
       by (destruct (is_nil upd && negb skip_gc); [exact I|exact Hju]).
     destruct (tag_schema_read g4 (n3 + 1) sj _ Hi4 Vs ER Vt Hp Ist4 Hjp) as (n'' & t' & R).
-    exists g4, (n3 + 1), (t1 ++ t2 ++ t3 ++ t4). split; [|split; [exact Hi4|split]].
+    exists g4, (n3 + 1), (t1 ++ t2 ++ t3 ++ t4).
+    split; [|split; [exact Hi4|split; [|split; [exact Ist4|split; [rewrite Gt4; now apply NoDup_fst_filter|]]]]].
     - cbn [run_op]. rewrite Him. unfold man_delete. rewrite Hix.
       assert (Ns : rs_supported rst = false) by (destruct rst; cbn; congruence).
       rewrite Ns. cbn [negb andb].
@@ -1849,7 +1852,7 @@ Proof.
               ltac:(intro l; reflexivity)
               ltac:(reflexivity)
               (reg0 []) 0 RSUnknown sat_d sat_c sat_sj None)
-    as (g' & n' & t & E & Hi & Ist & _ & R); try (vm_compute; reflexivity); try discriminate.
+    as (g' & n' & t & E & Hi & Ist & _ & _ & R); try (vm_compute; reflexivity); try discriminate.
   - right. reflexivity.
   - constructor.
   - right. discriminate.
